@@ -43,7 +43,13 @@ CATALOGUE = {
     "equal": ("pred", 2), "not_equal": ("pred", 2), "isnan": ("pred", 1), "isfinite": ("pred", 1),
     "logical_and": ("pred", 2), "logical_or": ("pred", 2), "logical_not": ("pred", 1),
     "argsort": ("index", 1), "argmax": ("index", 1), "argmin": ("index", 1),
+    # "... and the like": more members of the unit-preserving classes
+    "nanstd": ("same", 1), "nanmedian": ("same", 1), "ptp": ("same", 1), "average": ("same", 1), "flip": ("same", 1),
+    "ravel": ("same", 1), "transpose": ("same", 1),
+    "fmax": ("samebin", 2), "fmin": ("samebin", 2), "hstack": ("samebin", 2), "vstack": ("samebin", 2), "stack": ("samebin", 2),
+    "append": ("samebin", 2),
 }
+LIST_ARG = ("concatenate", "hstack", "vstack", "stack")
 BOUNDS = {"quick": {"catalogue": sorted(CATALOGUE), "elements": "all symbolic; (2,) and (2,2) arrays",
                     "unit assignments": "same / compatible-different (m,cm) (pc,au) / incompatible (m,s) / plain ndarray or number mixed in",
                     "dtypes": "f64 everywhere; f32, i64 on the unary and binary ufuncs", "keyword forms": "axis=0/1/None, out="},
@@ -62,7 +68,7 @@ def configs(tier):
     shapes = [[2]] if tier == "quick" else [[2], [3]]
     for fn, (cls, ar) in CATALOGUE.items():
         dts = ["float64"]
-        if cls in ("same", "samebin", "mul", "div", "sqrt", "square", "recip", "pow") and fn not in ("median", "std", "where", "clip"):
+        if cls in ("same", "samebin", "mul", "div", "sqrt", "square", "recip", "pow") and fn not in ("median", "std", "where", "clip", "nanstd", "nanmedian", "average"):
             dts = ["float64", "float32", "int64"] + (["int32"] if tier != "quick" else [])
         if cls == "recip":
             dts = [d for d in dts if np.dtype(d).kind == "f"]    # numpy's integer reciprocal is an integer division
@@ -82,7 +88,7 @@ def configs(tier):
                         out.append(dict(fn=fn, ua=ua, ub=ub, dt=dt, shape=shape, form="plain", other="Array"))
                     if dt == "float64":
                         for other in ("ndarray", "number"):
-                            if fn == "concatenate" and other == "number":
+                            if fn in LIST_ARG + ("append",) and other == "number":
                                 continue            # numpy itself refuses 0-d operands
 
                             for ua in ("m", "dimensionless"):
@@ -109,7 +115,7 @@ def configs(tier):
 
 def _np_call(fn, args, **kw):
     f = getattr(np, fn)
-    if fn == "concatenate":
+    if fn in LIST_ARG:
         return f(list(args), **kw)
     return f(*args, **kw)
 
@@ -276,7 +282,7 @@ def body(m, cfg):
     if len(rv) != len(ev):
         return
     tol = C.tol_for(ua, ub)
-    root = 2 if (cls == "sqrt" or fn == "std" or (cls == "pow" and cfg.get("k") == 0.5)) else (3 if cls == "cbrt" else 1)
+    root = 2 if (cls == "sqrt" or fn in ("std", "nanstd") or (cls == "pow" and cfg.get("k") == 0.5)) else (3 if cls == "cbrt" else 1)
     sc = None
     if cls in ("same", "samebin") and root == 1:
         sc = scale_terms[0]
